@@ -257,6 +257,11 @@ def seq_cases(n):
             yield {'k': 'seq', 'fam': 'grow', 'seq': ['def', dl, uses]}
     for depth in (1, 2, 4, 6, 8, 10):
         yield {'k': 'seq', 'fam': 'grow', 'seq': ['defdef', depth, 0]}
+    # long source lines wrapped by the listing at the PAGE width
+    for width in (0, 5, 80, 255):
+        for n in (50, 300, 2400, 2600, 20000):
+            for ch in ('x', '\t'):
+                yield {'k': 'seq', 'fam': 'grow', 'seq': ['listwrap', width, n, ch], 'opt': ['-L']}
     for body in ('macro', 'rept', 'irp', 'irpc', 'while'):
         for tabs in (1, 8, 40, 130, 300, 1000):
             for where in ('tail', 'mid'):
@@ -428,6 +433,8 @@ def evaluate(case):
             q = case['seq']
             if q[0] == 'def':
                 src = '\tcpu 8080\n#define X %s1\n\tdb %s\n' % ('1+' * (q[1] // 2), ','.join(['X'] * q[2]))
+            elif q[0] == 'listwrap':
+                src = '\tcpu 8080\n\tpage 10,%d\n\tnop ; %s\n\tnop\n' % (q[1], q[3] * q[2])
             elif q[0] == 'defdef':
                 src = '\tcpu 8080\n' + ''.join('#define X%d X%d+X%d\n' % (i, i + 1, i + 1) for i in range(q[1])) + '#define X%d 1\n\tdw X0\n' % q[1]
             else:
@@ -441,9 +448,9 @@ def evaluate(case):
             core.fresh()
             core.put('a.asm', src)
             core.put('s.bin', '12345678')
-            return core.run('asl', ['-q', 'a.asm'], variant=v, timeout=to, maxout=1 << 16)
+            return core.run('asl', ['-q'] + case.get('opt', []) + ['a.asm'], variant=v, timeout=to, maxout=1 << 16)
         o = run('asan')
-        r = finish(run, o, ASL_OK, src.replace('\n', ' / '), 'asl/seq/' + case['fam'], big_ok=False)
+        r = finish(run, o, ASL_OK, (src if len(src) < 400 else src[:200] + '...' + src[-100:]).replace('\n', ' / ') + ' | asl ' + ' '.join(case.get('opt', [])), 'asl/seq/' + case['fam'], big_ok=False)
         return r or core.R(True, 'rc%s' % o.rc, nontrivial=True, states=['seq%d' % o.rc])
     if k in ('nest', 'count', 'ctx'):
         src, opt = nest_src(case)
